@@ -24,6 +24,8 @@ namespace hv
             std::map<std::string, P> ports;
             std::map<std::string, stdlib::FeedbackWiringPort<TS<Int>>> fbs;
             std::map<std::string, DelayedBindingWiringPort<TS<Int>>> delayed;
+            std::vector<std::unique_ptr<context::scope<"hvctx">>> ctx_scopes;   // entered by `ctxscope`, left (in reverse) when wiring ends
+            ~Prog() { while (!ctx_scopes.empty()) ctx_scopes.pop_back(); }
         };
         const Scenario *g_sc = nullptr;
 
@@ -83,6 +85,7 @@ namespace hv
             if (g == "SgSchedV") return wire_sub<SgSchedV>(w, how, x, p, q, id);
             if (g == "SgDeep") return wire_sub<SgDeep>(w, how, x, p, q, id);
             if (g == "SgFail") return wire_sub<SgFail>(w, how, x, p, q, id);
+            if (g == "SgCtx") return wire_sub<SgCtx>(w, how, x, p, q, id);
             throw std::invalid_argument("scenario: unknown sub-graph " + g);
         }
 
@@ -146,6 +149,11 @@ namespace hv
             else if (kind == "conv")
                 out = st.get("ty", "I") == "F" ? wire<FloatToInt>(w, wire<Conv, TS<Float>>(w, arg(0), id)).as<TS<Int>>()
                                               : wire<Conv, TS<Int>>(w, arg(0), id).as<TS<Int>>();
+            else if (kind == "ctxscope")
+            {   // <name> = ctxscope <port>: the port is offered as context "hvctx" to everything wired afterwards
+                out = arg(0);
+                pg.ctx_scopes.push_back(std::make_unique<context::scope<"hvctx">>(w, out));
+            }
             else if (kind == "accum") out = wire<Accum>(w, arg(0), id);
             else if (kind == "ticker") out = wire<Ticker>(w, Int{st.geti("count", 3)}, Int{st.geti("period", 1)}, id);
             else if (kind == "timer0") out = wire<Timer0>(w, id);
